@@ -17,7 +17,7 @@
 -/
 import KatdalModel.Lemmas.FirstStage
 import KatdalModel.Lemmas.Compose
-import KatdalModel.Lemmas.ConcatHead
+import KatdalModel.Lemmas.ConcatSlice
 open Np Index LazyIx
 
 namespace C05
@@ -229,10 +229,36 @@ theorem c05_concat_int (lens : List Nat) (i : Int) (h : -(total lens : Int) ≤ 
 
 /-- **Concatenated indexer, boolean-mask head index**: partitioning the mask over the parts equals
     applying it to the concatenation (same rows, same order), for any number and sizes of parts
-    including empty parts.  (Slice and integer-list head indices: modelled, executed against the
-    code on every run and `decide`d on instances, general theorem not proved.) -/
+    including empty parts. -/
 theorem c05_concat_mask (lens : List Nat) (m : List Bool) (h : m.length = total lens) :
     concatHead lens (.mask m) = concatSpec lens (.mask m) := concatHead_mask lens m h
+
+/-- **Concatenated indexer, positive-step slice head index** (any start/stop incl. negative and
+    `None`, any stride, any number and sizes of parts incl. empty parts): the per-part slices
+    `slice(chunk_start, stop - offset, stride)` read exactly `range(*slice.indices(total))`, in
+    order, whenever the selection is non-empty. -/
+theorem c05_concat_slice_partial (lens : List Nat) (a b c : Option Int) (hc : c.getD 1 > 0)
+    (s e st : Int) (hi : sliceIndices (total lens) a b c = some (s, e, st)) (hne : s < e) :
+    concatHead lens (.slice a b c) = concatSpec lens (.slice a b c) :=
+  concatHead_slice lens a b c hc s e st hi hne
+
+/-- the same for an empty selection, provided the part holding the start is not after the part
+    holding the stop (so at least one part is consulted) -/
+theorem c05_concat_slice_empty_partial (lens : List Nat) (a b c : Option Int) (hc : c.getD 1 > 0)
+    (s e st : Int) (hi : sliceIndices (total lens) a b c = some (s, e, st)) (hlens : lens ≠ [])
+    (hord : findIndexer (partStarts lens) s ≤ findIndexer (partStarts lens) e) :
+    concatHead lens (.slice a b c) = concatSpec lens (.slice a b c) :=
+  concatHead_slice_ord lens a b c hc s e st hi hlens hord
+
+/-- the full statement (every positive-step slice) is false of the code: an empty slice whose
+    start lies in a later part than its stop raises ValueError (known finding
+    C05-concat-empty-slice; replayed on the implementation by the harness) -/
+theorem c05_concat_slice_full_is_false :
+    ¬ ∀ (lens : List Nat) (a b c : Option Int), c.getD 1 > 0 →
+      concatHead lens (.slice a b c) = concatSpec lens (.slice a b c) := by
+  intro h
+  have := h [3, 2] (some 4) (some 1) none (by decide)
+  revert this; decide
 
 /-! ### Non-vacuity and witnesses -/
 
@@ -245,6 +271,8 @@ example : getitem1 10 (.slice none none none) (.list [1, 2, 5, 6]) = .ok (.many 
 example : getitem1 30 (.slice none none none) (.list [1, 2, 5, 6]) = .ok (.many [1, 2, 5, 6]) := by decide
 example : concatHead [2, 0, 3] (.int (-1)) = .ok (true, [(2, 2)]) := by decide
 example : concatHead [2, 3] (.mask [false, true, true, false, true]) = .ok (false, [(0, 1), (1, 0), (1, 2)]) := by decide
+example : sliceIndices (total [3, 0, 3]) (some (-5)) none (some 2) = some (1, 6, 2) ∧ (1 : Int) < 6 := by decide
+example : concatHead [3, 0, 3] (.slice (some (-5)) none (some 2)) = .ok (false, [(0, 1), (2, 0), (2, 2)]) := by decide
 example : concatHead [3, 3] (.slice (some 1) (some 6) (some 2)) = concatSpec [3, 3] (.slice (some 1) (some 6) (some 2)) := by decide
 example : concatHead [2, 0, 3] (.list [1, 2, 4]) = concatSpec [2, 0, 3] (.list [1, 2, 4]) := by decide
 -- repeated equal entries are rejected (the defect repaired in /repo commit 35c2508)
